@@ -8,6 +8,7 @@ package sim
 
 import (
 	"bytes"
+	"context"
 	"crypto/hmac"
 	"crypto/sha256"
 	"encoding/hex"
@@ -17,6 +18,8 @@ import (
 	"net"
 	"net/netip"
 	"net/url"
+	"os"
+	"path/filepath"
 	"sort"
 	"strconv"
 	"strings"
@@ -213,6 +216,9 @@ type dmsg struct {
 	expect   *settlement
 	conflict bool // a settlement for this message hit a lease conflict
 	done     string
+	ok2xx    int  // deliveries the target answered with 2xx
+	acked    bool // the enqueue returned without error
+	wasGone  bool // absent at an earlier restart (reported once)
 }
 
 type settlement struct {
@@ -239,6 +245,16 @@ type DispatchWorld struct {
 	stalled    map[*Task]bool             // the simulator moved the clock while this worker was mid-cycle (since its last dequeue)
 	faulted    map[string]map[string]int  // by lease id: injected store faults met by settlement calls, per method
 	lostRecs   map[string]int             // by message id: attempt records lost to an injected store fault
+
+	// crash mode (SQLite on the simulated disk)
+	prog      *Program
+	fired     map[int]bool
+	stepIdx   int
+	stepStart []int
+	opsBase   int
+	restarts  int
+	pendingF  *Fault
+	crashedAt bool // at least one crash happened in this run
 }
 
 func (w *DispatchWorld) add(rule, props, loc, format string, a ...any) {
@@ -281,11 +297,14 @@ func (w *DispatchWorld) curDelivery() *delivery {
 	return d
 }
 
-func NewDispatchWorld(spec *SysSpec, offset int64, seed int64, arm func(string) bool) (*DispatchWorld, error) {
+func NewDispatchWorld(spec *SysSpec, offset int64, seed int64, arm func(string) bool, simDisk ...bool) (*DispatchWorld, error) {
 	w := &DispatchWorld{byID: map[string]*dmsg{}, byLease: map[string]*dmsg{}, cur: map[*Task]*delivery{}, inDeliver: map[string]*Task{}, taskItems: map[*Task][]queue.Envelope{}, expect: map[string]*settlement{}, leaseUntil: map[string]time.Time{}, stalled: map[*Task]bool{}, faulted: map[string]map[string]int{}, lostRecs: map[string]int{}}
 	w.Model = NewModel(sysQConfig(spec))
-	sw, err := NewSysWorld(spec, offset, SysOptions{Seed: seed, ArmPoints: arm, OnStore: func(ss *SimStore) {
+	sw, err := NewSysWorld(spec, offset, SysOptions{Seed: seed, ArmPoints: arm, SimDisk: len(simDisk) > 0 && simDisk[0], OnStore: func(ss *SimStore) {
 		ss.OnEnqueue = func(envs []queue.Envelope, batch bool, n int, err error) {
+			if w.diskDead() {
+				return
+			}
 			w.addAll(w.Model.Enqueue(w.Clock.Peek(), envs, batch, n, err), "dispatch/enqueue")
 		}
 		ss.OnDequeue = w.onDequeue
@@ -338,7 +357,14 @@ func hostOnly(h string) string {
 	return strings.Trim(h, "[]")
 }
 
+// diskDead: the process died (crash mode); what the dying call returned is
+// not judged, the state after restart is.
+func (w *DispatchWorld) diskDead() bool { return w.Disk != nil && w.Disk.Dead() }
+
 func (w *DispatchWorld) onDequeue(req queue.DequeueRequest, resp queue.DequeueResponse, err error) {
+	if w.diskDead() {
+		return
+	}
 	now := w.Clock.Peek()
 	w.addAll(w.Model.Dequeue(now, req, resp, err), "dispatch/dequeue")
 	t := w.Sched.Current()
@@ -397,6 +423,14 @@ func (w *DispatchWorld) onDequeue(req queue.DequeueRequest, resp queue.DequeueRe
 // onAttempt: the dispatcher recorded the outcome of one delivery. Everything
 // the transport saw for this worker since its previous record belongs to it.
 func (w *DispatchWorld) onAttempt(a queue.DeliveryAttempt, err error) {
+	if w.diskDead() {
+		// the delivery itself happened: remember a 2xx for the conservation rule
+		if dm := w.byID[a.EventID]; dm != nil && a.StatusCode >= 200 && a.StatusCode <= 299 {
+			dm.ok2xx++
+		}
+		delete(w.cur, w.Sched.Current())
+		return
+	}
 	t := w.Sched.Current()
 	d := w.cur[t]
 	delete(w.cur, t)
@@ -516,6 +550,9 @@ func (w *DispatchWorld) onAttempt(a queue.DeliveryAttempt, err error) {
 		w.add("C03.dispatch.lease_outlived", "C03,C06", "dispatch/deliver", "worker started the delivery of %s at %s although its lease ran out at %s and nothing stalled the worker (deliveries of one micro-batch took longer than the lease the dispatcher asked for)", dm.token, off(d.hops[0].nr.At), off(held.LeaseUntil))
 	}
 	outcome, reason := refOutcome(final, status, a.Attempt, retry.Max)
+	if outcome == "acked" {
+		dm.ok2xx++
+	}
 	w.Res.probe("deliver." + final + "." + outcome)
 	w.Res.logf("  delivery %s attempt=%d hops=%d final=%s/%d -> recorded outcome=%s reason=%q status=%d", dm.token, a.Attempt, len(d.hops), final, status, a.Outcome, a.DeadReason, a.StatusCode)
 
@@ -676,6 +713,9 @@ func (w *DispatchWorld) onFault(method string, ids []string, a *queue.DeliveryAt
 }
 
 func (w *DispatchWorld) onLease(method string, ids []string, d time.Duration, reason string, res *queue.LeaseBatchResult, err error) {
+	if w.diskDead() {
+		return
+	}
 	now := w.Clock.Peek()
 	loc := "dispatch/settle"
 	kind := map[string]string{"Ack": "acked", "AckBatch": "acked", "Nack": "retry", "NackBatch": "retry", "MarkDead": "dead", "MarkDeadBatch": "dead"}[method]
@@ -782,6 +822,10 @@ func (w *DispatchWorld) Publish(routeIdx int, extraHeader bool) {
 		w.pub = append(w.pub, dm)
 		err := w.Node.Store.Enqueue(queue.Envelope{Route: r.Path, Target: r.Deliver[i].URL, Payload: []byte(tok), Headers: hdr})
 		w.Res.logf("publish %s -> %s %s: %s", tok, r.Path, r.Deliver[i].URL, errShort(err))
+		dm.acked = err == nil && !w.diskDead()
+		if w.diskDead() {
+			return
+		}
 	}
 	w.sync("publish")
 }
@@ -801,6 +845,10 @@ func (w *DispatchWorld) Tick(k int) bool {
 		return false
 	}
 	w.Res.logf("tick %s -> %s", t.Name, kind)
+	if w.diskDead() {
+		w.Res.probe("dispatch.crash.inside_cycle")
+		return false // the process died inside the cycle: judged after the restart
+	}
 	w.sync("tick " + t.Name)
 	return w.Res.Probes["dispatch.dequeue.nonempty"] > before
 }
@@ -859,12 +907,152 @@ func (w *DispatchWorld) Drain() {
 	}
 }
 
+// ---- crash mode ---------------------------------------------------------------
+
+func (w *DispatchWorld) diskOps() int { return w.opsBase + w.Disk.Ops }
+
+func (w *DispatchWorld) decideDisk(kind, path string, n int) DiskDecision {
+	idx := w.diskOps() - 1
+	for i := range w.prog.Faults {
+		f := &w.prog.Faults[i]
+		if w.fired[i] || f.Site != "disk" || f.AfterStep > w.stepIdx || f.AfterStep >= len(w.stepStart) {
+			continue
+		}
+		if idx != w.stepStart[f.AfterStep]+f.Hit {
+			continue
+		}
+		w.fired[i] = true
+		w.Res.fault(f.Action)
+		w.Res.logf("  fault %s at disk op %d (%s %s %d bytes)", f.Action, idx, kind, filepath.Base(path), n)
+		w.pendingF = f
+		return DiskCrash
+	}
+	return DiskContinue
+}
+
+// crashRestart: the node died. A fresh node starts on the post-crash image; the
+// queue content is taken from the listing, under the conservation rule: a
+// message that was accepted is still there (queued, leased by the dead process,
+// dead-lettered, or delivered), or its target answered one of its deliveries
+// with 2xx. Nothing else may appear.
+func (w *DispatchWorld) crashRestart() {
+	r := w.Res
+	w.restarts++
+	w.crashedAt = true
+	action, seed := "crash.kill", int64(0)
+	if w.pendingF != nil {
+		action, seed = w.pendingF.Action, w.pendingF.ImgSeed
+	}
+	w.pendingF = nil
+	old, oldNode := w.Disk, w.Node
+	old.Kill()
+	w.opsBase += old.Ops
+	w.Sched.MarkDead(w.group)
+	dir := filepath.Join(w.base, fmt.Sprintf("db%d", w.restarts))
+	if err := os.MkdirAll(dir, 0o755); err != nil {
+		r.Trouble = err.Error()
+		return
+	}
+	pend := old.PendingWrites()
+	applied, dropped, torn, err := old.Image(dir, action == "crash.powerloss", seed)
+	if err != nil {
+		r.Trouble = "image: " + err.Error()
+		return
+	}
+	old.Release()
+	go func() { _ = oldNode.CloseStore() }()
+	r.logf("restart #%d after %s: %d unsynced writes (%d applied, %d dropped, %d torn)", w.restarts, action, pend, applied, dropped, torn)
+	w.Node = nil
+	w.byLease, w.inDeliver, w.taskItems = map[string]*dmsg{}, map[string]*Task{}, map[*Task][]queue.Envelope{}
+	w.expect, w.leaseUntil, w.stalled, w.faulted = map[string]*settlement{}, map[string]time.Time{}, map[*Task]bool{}, map[string]map[string]int{}
+	w.cur = map[*Task]*delivery{}
+	if err := w.startNode(dir, true); err != nil {
+		w.add("C01.reopen", "C01", "dispatch/restart", "the node does not start on the database after a crash: %v", err)
+		return
+	}
+	w.Disk.Decide = w.decideDisk
+	if st, ok := w.Node.RawStore.(*queue.SQLiteStore); ok {
+		var res string
+		if err := st.VerifDB().QueryRowContext(context.Background(), "PRAGMA integrity_check;").Scan(&res); err != nil || res != "ok" {
+			w.add("C01.integrity", "C01", "dispatch/restart", "PRAGMA integrity_check after restart: %q err=%v", res, err)
+		}
+	}
+	items, err := w.Listing()
+	if err != nil {
+		w.add("C01.list", "C01", "dispatch/restart", "listing failed after restart: %v", err)
+		return
+	}
+	have := map[string]*queue.Envelope{}
+	for i := range items {
+		have[items[i].ID] = &items[i]
+	}
+	// learn ids of messages that were stored but not yet seen by a listing
+	for _, dm := range w.pub {
+		if dm.id != "" {
+			continue
+		}
+		for _, it := range items {
+			if string(it.Payload) == dm.token && it.Target == dm.target.URL && w.byID[it.ID] == nil {
+				dm.id = it.ID
+				w.byID[it.ID] = dm
+				break
+			}
+		}
+	}
+	for _, dm := range w.pub {
+		it := have[dm.id]
+		switch {
+		case dm.id == "" && dm.done == "":
+			// the enqueue itself was never acknowledged to anybody in this world
+			// (published directly through the store): absent is admissible only
+			// if the call had not returned; Publish marks acknowledged ones
+			if dm.acked {
+				w.add("C01.push.lost", "C01", "dispatch/restart", "message %s was stored before the crash and is gone after the restart", dm.token)
+			}
+		case it == nil:
+			// gone: legal only as the effect of an ack after a delivery the target accepted
+			if dm.ok2xx == 0 && !dm.wasGone {
+				w.add("C01.push.lost", "C01,C05,C06", "dispatch/restart", "message %s is gone after the restart although no delivery of it was answered with 2xx (an accepted message was lost without being delivered or dead-lettered)", dm.token)
+			}
+			dm.wasGone = true
+		default:
+			if string(it.Payload) != dm.token || it.Route != dm.route.Path || it.Target != dm.target.URL {
+				w.add("C07.restart.changed", "C07,C01", "dispatch/restart", "message %s changed across the restart: route %s target %s payload %q", dm.token, it.Route, it.Target, trunc(it.Payload))
+			}
+		}
+		dm.conflict = true // deliveries before the crash may repeat after it
+	}
+	for _, it := range items {
+		if w.byID[it.ID] == nil {
+			w.add("C02.appeared", "C02,C01", "dispatch/restart", "after the restart the queue holds message %s (%s) that nobody enqueued", it.ID, it.State)
+		}
+	}
+	// the model continues from what the restart left
+	w.Model = NewModel(sysQConfig(w.Spec))
+	now := w.Clock.Peek()
+	for _, it := range items {
+		w.Model.Enqueue(now, []queue.Envelope{{ID: it.ID, Route: it.Route, Target: it.Target, Payload: it.Payload, Headers: it.Headers, Trace: it.Trace, ReceivedAt: it.ReceivedAt, NextRunAt: it.NextRunAt, State: it.State}}, false, 0, nil)
+		if x := w.Model.Msgs[it.ID]; x != nil {
+			x.Attempt, x.DeadReason = it.Attempt, it.DeadReason
+			if it.State == queue.StateLeased {
+				x.LeaseID = "lease-of-the-dead-process-" + it.ID
+				x.LeaseUntil = it.NextRunAt
+				if !it.LeaseUntil.IsZero() {
+					x.LeaseUntil = it.LeaseUntil
+				}
+			}
+		}
+	}
+	w.Res.States = append(w.Res.States, w.Model.Hash())
+}
+
 type dispatchSys struct {
 	Spec    *SysSpec               `json:"spec"`
 	Scripts map[string][]NetAction `json:"scripts"` // by target host
 	DNS     map[string][][]string  `json:"dns,omitempty"`
 	DNSFail []string               `json:"dns_fail,omitempty"`
 	Seed    int64                  `json:"seed"`
+	Crash   bool                   `json:"crash,omitempty"` // SQLite on the simulated disk, faults from the program's fault plan
 }
 
 func RunDispatchProgram(p *Program) *Result {
@@ -883,11 +1071,18 @@ func RunDispatchProgram(p *Program) *Result {
 	if len(armed) > 0 {
 		arm = func(l string) bool { return armed[l] }
 	}
-	w, err := NewDispatchWorld(&spec, p.Offset, sys.Seed, arm)
+	if sys.Crash {
+		spec.Backend = "sqlite"
+	}
+	w, err := NewDispatchWorld(&spec, p.Offset, sys.Seed, arm, sys.Crash)
 	if err != nil {
 		return &Result{Trouble: "node: " + err.Error() + "\n" + spec.Render()}
 	}
 	defer w.Close()
+	w.prog, w.fired = p, map[int]bool{}
+	if sys.Crash {
+		w.Disk.Decide = w.decideDisk
+	}
 	hosts := make([]string, 0, len(sys.Scripts))
 	for h := range sys.Scripts {
 		hosts = append(hosts, h)
@@ -912,8 +1107,19 @@ func RunDispatchProgram(p *Program) *Result {
 	}
 	start := w.Clock.Peek()
 	w.Res.logf("dispatch world backend=%s routes=%d workers=%d", spec.Backend, len(spec.Routes), w.Node.Workers)
-	for _, s := range p.Steps {
+	for i, s := range p.Steps {
+		w.stepIdx = i
+		if sys.Crash {
+			w.stepStart = append(w.stepStart, w.diskOps())
+		}
 		switch s.Op {
+		case "crash":
+			if sys.Crash {
+				w.Res.Ops++
+				w.Disk.Kill()
+				w.pendingF = &Fault{Action: "crash." + s.Image, ImgSeed: s.ImgSeed}
+				w.Res.fault("crash." + s.Image)
+			}
 		case "publish":
 			w.Publish(s.Batch, s.Pad)
 		case "tick":
@@ -935,6 +1141,24 @@ func RunDispatchProgram(p *Program) *Result {
 		if w.Res.Trouble != "" {
 			return w.Res
 		}
+		for k := 0; sys.Crash && w.diskDead(); k++ {
+			if k == 5 {
+				w.Res.Trouble = "more than 5 consecutive crashes during recovery"
+				return w.Res
+			}
+			w.crashRestart()
+			if w.Res.Trouble != "" || w.Node == nil {
+				return w.Res
+			}
+		}
+	}
+	if sys.Crash {
+		// faults stop
+		for i := range p.Faults {
+			w.fired[i] = true
+		}
+		w.stepIdx = len(p.Steps)
+		w.stepStart = append(w.stepStart, w.diskOps())
 	}
 	for _, h := range sys.DNSFail {
 		w.Net.SetDNSFail(h, false)
@@ -944,7 +1168,19 @@ func RunDispatchProgram(p *Program) *Result {
 	}
 	w.Drain()
 	// one attempt record per delivery, none missing
-	if w.Res.Trouble == "" {
+	if w.Res.Trouble == "" && w.crashedAt {
+		// conservation across crashes, at the end: whatever is no longer in the
+		// queue was delivered (2xx) - dead letters stay listed
+		for _, dm := range w.pub {
+			if dm.id == "" || !dm.acked {
+				continue
+			}
+			if x := w.Model.Msgs[dm.id]; x == nil && dm.ok2xx == 0 && !dm.wasGone {
+				w.add("C01.push.lost", "C01,C05,C06", "dispatch/end", "message %s is no longer in the queue although no delivery of it was answered with 2xx", dm.token)
+			}
+		}
+	}
+	if w.Res.Trouble == "" && !w.crashedAt {
 		for _, dm := range w.pub {
 			if dm.id == "" {
 				continue
@@ -976,6 +1212,10 @@ func (w *DispatchWorld) InterleaveStep(s Step) {
 	ci := 0
 	var trace []string
 	for len(active) > 0 {
+		if w.diskDead() {
+			w.Res.probe("dispatch.crash.inside_cycle")
+			break // the process died: judged after the restart
+		}
 		var run []*Task
 		for t := range active {
 			run = append(run, t)
@@ -1016,5 +1256,8 @@ func (w *DispatchWorld) InterleaveStep(s Step) {
 	}
 	w.interTrace += strings.Join(trace, " ") + ";"
 	w.Res.logf("interleave %s", strings.Join(trace, " "))
+	if w.diskDead() {
+		return
+	}
 	w.sync("interleave")
 }
